@@ -3,6 +3,7 @@ package props
 import (
 	"bytes"
 	"fmt"
+	"github.com/itchio/lake"
 	"os"
 	"path/filepath"
 	"strings"
@@ -149,6 +150,14 @@ func c09Cases(tier string, seed uint64, flavor string) []lib.Case {
 	return cases
 }
 
+// c09Inner: in odd cases the pool under the safekeeper hands a just-used reader back at an arbitrary position.
+func c09Inner(p lake.Pool, id int, seed uint64) lake.Pool {
+	if id%2 == 1 {
+		return &lib.StalePool{Inner: p, Rng: lib.NewRng(lib.Mix(seed, 91))}
+	}
+	return p
+}
+
 func c09Run(c lib.Case, env *lib.Env) lib.Result {
 	var s c09Spec
 	lib.ReadSpec(c, &s)
@@ -210,7 +219,7 @@ func c09Run(c lib.Case, env *lib.Env) lib.Result {
 			return err
 		}
 		sk, err := pwr.NewSafeKeeper(pwr.SafeKeeperParams{
-			Inner: fspool.New(p.GetTargetContainer(), oldDir),
+			Inner: c09Inner(fspool.New(p.GetTargetContainer(), oldDir), c.ID, s.Seed),
 			Open: func() (savior.SeekSource, error) {
 				opens++
 				if s.SigFault == "open-error" {
